@@ -7,6 +7,7 @@ NOTE = ("Trusted: Lean 4.33 kernel; axioms propext/Classical.choice/Quot.sound o
         "std/http/httparse/url behaviour is modelled, not verified (DESIGN §9).")
 TECH = "kernel-checked Lean 4 theorems over a hand-written executable model + differential correspondence with the crate + Lean oracle on the implementation's traces"
 claimed = {
+ "C02": "Theorems C02_step (each call emits the maximal run of whole lines that fits, OutputOverflow exactly when not even the next line fits, nothing changes then), C02_schedule (after any sequence of buffer sizes the bytes emitted are exactly the first k units), C02_render (complete => exactly request line, every effective header line, empty line), C02_after. Host/framing exactly-once: oracle + correspondence.",
  "C03": "Theorems C03_wire / C03_after_finish / C03_finished_iff: for every sequence of (input, buffer) writes the emitted bytes are complete non-empty chunks carrying exactly the consumed input, with the terminator exactly when finished. Correspondence: the same writes on the real crate (exhaustive small scope, boundary-directed, random) must match the model line by line; an independent chunk decoder judges the implementation's own output.",
  "C04": "Theorems C04_copy / refuse_over / refuse_after / direct / total / finished: min-of-three copy, refusal without side effect, 'accounted <= N' invariant over all op sequences, finished only at exactly N and always once N is reached and signalled.",
  "C05": "Theorems C05_exact (H or more => exactly H's status/version/fields, consumes |H|), C05_prefix (every strict prefix => need more data), C05_limit (more fields than the limit => too-many-headers), at parser level for every limit N; C05_call_prefix_partial at Call level with the partial-redirect fallback present, for every head that is not a 3xx with a Location field (the excluded region is known finding D10, witnessed and replayed); C05_call_prefix_nohack for the code without the fallback.",
@@ -14,6 +15,8 @@ claimed = {
  "C07": "Theorem C07 (from V2.C07_schedule): for every valid coding (grammar V2.Rem), every arrival/window schedule, output size and boundary-stop setting, the reads never fail, output is a prefix of the chunk data, only coding bytes are consumed, ended iff the final CRLF was consumed; tied to CallSt.read by read_chunked_eq. Partial: 'no read returns data of two chunks with boundary stop' and liveness are decided by the correspondence and the oracle only (no theorem yet).",
  "C08": "Theorems C08_len (every schedule delivers a verbatim prefix of the next N bytes, consumed = delivered <= N, complete iff N delivered), C08_close_step, C08_close_can_proceed, C08_close_marks, C08_reasons_kept.",
  "C11": "Theorems C11_undecided(_bare), C11_continue, C11_refused_bare, C11_refused_fields (response with >=1 complete field line, any status), C11_proceed (edges incl. converted holder), C11_late (late 100 consumed once).",
+ "C16": "Theorems C16_order (caller-added headers are the first effective headers, for any unset list), C16_add, C16_analysis_appends, C16_render, with C02_render putting them on the wire in that order; C16_inherited_still_suppressed.",
+ "C17": "Theorems C17_iff (analysis fails exactly on the invalid classes of the property text), C17_write_refused (error, nothing emitted, state unchanged => repeatable), C17_never_ready, C17_accept (everything else: ok or OutputOverflow).",
  "C18": "Theorems C18_fits_chunked (a write of calculate_max_input(n) bytes into n bytes consumes all of it, for every n, through the byte-level writer), C18_sized, C18_le_n, C18_monotone.",
  "C19": "Theorems C19_progress_chunked / C19_more_input / C19_at_least_advertised / C19_progress_sized / C19_terminates for all input and buffer lengths.",
  "C20": "Response side: C20_resp_exact, C20_resp_prefix, C20_resp_too_many_iff for every limit N; partial parser: C20_partial (never fails on a prefix within the limit; reports only complete fields of the head, in order), C20_partial_complete. Request side: correspondence + oracle only (no theorem yet) — partial.",
